@@ -107,6 +107,9 @@ GBC_POST["duplicate_overheard_drops_the_copy_waiting_in_the_cbf_buffer"] = (
     "implies(len(ghost('lt_duplicates')) == 1 and old(map_has(self._cbf_buffer, cbf_key_of(packet))), "
     "not map_has(self._cbf_buffer, cbf_key_of(packet)) and len(ghost('timers_cancelled')) == 1 "
     "and ghost('timers_cancelled')[0] is old(map_get(self._cbf_buffer, cbf_key_of(packet))) and n_emitted() == 0)")
+GBC_POST["a_duplicate_is_neither_delivered_nor_buffered_nor_forwarded"] = (
+    "implies(len(ghost('lt_duplicates')) == 1, result is None and n_timers() == 0 and n_emitted() == 0 and "
+    "not map_has(self._cbf_buffer, cbf_key_of(packet)))")
 contract(f"{RT}:Router.gn_data_indicate_gbc", returns=ind_of("GeoBroadcastHST"), props=["C06", "C01", "C07", "C08", "C20", "C04"],
          shapes={"self": ROUTER, "packet": T.bytes(0, 2000), "common_header": common_of("GEOBROADCAST", "GeoBroadcastHST"),
                  "basic_header": BASIC},
